@@ -10,6 +10,7 @@ use succinctly::verif_hooks::{EndPositions, OpenPositions};
 macro_rules! open3 {
     ($name:ident, $n:expr, $tl:expr, $maxpos:expr) => {
         #[kani::proof]
+        #[kani::stub(alloc::vec::Vec::push, crate::stubs::push_no_grow)]
         #[kani::unwind(8)]
         #[kani::stub(succinctly::util::broadword::select_in_word, crate::stubs::select_in_word_contract)]
         #[kani::stub(succinctly::bits::scan::scan_select, crate::stubs::scan_select_model)]
@@ -51,6 +52,7 @@ open3!(c17_open3_n4_tl64_eof, 4, 64, 64);
 macro_rules! end3 {
     ($name:ident, $n:expr, $tl:expr, $maxpos:expr) => {
         #[kani::proof]
+        #[kani::stub(alloc::vec::Vec::push, crate::stubs::push_no_grow)]
         #[kani::unwind(8)]
         #[kani::stub(succinctly::util::broadword::select_in_word, crate::stubs::select_in_word_contract)]
         #[kani::stub(succinctly::bits::scan::scan_select, crate::stubs::scan_select_model)]
@@ -274,6 +276,7 @@ macro_rules! seed_and_get {
 macro_rules! open_step {
     ($name:ident, $n:expr, $tl:expr, $maxpos:expr) => {
         #[kani::proof]
+        #[kani::stub(alloc::vec::Vec::push, crate::stubs::push_no_grow)]
         #[kani::unwind(8)]
         #[kani::stub(succinctly::util::broadword::select_in_word, crate::stubs::select_in_word_contract)]
         #[kani::stub(succinctly::bits::scan::scan_select, crate::stubs::scan_select_model)]
@@ -321,6 +324,7 @@ open_step!(c17_open_step_n4_tl64_eof, 4, 64, 64);
 /// The constructor's cursor state satisfies the invariant (base case), and
 /// OpenPositions picks the compact table exactly for monotone input.
 #[kani::proof]
+#[kani::stub(alloc::vec::Vec::push, crate::stubs::push_no_grow)]
 #[kani::unwind(8)]
 #[kani::stub(succinctly::util::broadword::select_in_word, crate::stubs::select_in_word_contract)]
 fn c17_open_init_inv_n4() {
@@ -342,6 +346,7 @@ fn c17_open_init_inv_n4() {
 macro_rules! end_step {
     ($name:ident, $n:expr, $tl:expr, $maxpos:expr) => {
         #[kani::proof]
+        #[kani::stub(alloc::vec::Vec::push, crate::stubs::push_no_grow)]
         #[kani::unwind(8)]
         #[kani::stub(succinctly::util::broadword::select_in_word, crate::stubs::select_in_word_contract)]
         #[kani::stub(succinctly::bits::scan::scan_select, crate::stubs::scan_select_model)]
@@ -392,6 +397,7 @@ end_step!(c17_end_step_n4_tl64, 4, 64, 64);
 end_step!(c17_end_step_n4_tl63, 4, 63, 63);
 
 #[kani::proof]
+#[kani::stub(alloc::vec::Vec::push, crate::stubs::push_no_grow)]
 #[kani::unwind(8)]
 #[kani::stub(succinctly::util::broadword::select_in_word, crate::stubs::select_in_word_contract)]
 fn c17_end_init_inv_n4() {
@@ -410,6 +416,7 @@ fn c17_end_init_inv_n4() {
 
 /// Non-monotone inputs take the dense fallback, which has no cursor: any index.
 #[kani::proof]
+#[kani::stub(alloc::vec::Vec::push, crate::stubs::push_no_grow)]
 #[kani::unwind(8)]
 fn c17_dense_fallback_n4() {
     let pos: [u32; 4] = kani::any();
@@ -429,6 +436,7 @@ fn c17_dense_fallback_n4() {
 }
 
 #[kani::proof]
+#[kani::stub(alloc::vec::Vec::push, crate::stubs::push_no_grow)]
 #[kani::unwind(8)]
 #[kani::stub(succinctly::util::broadword::select_in_word, crate::stubs::select_in_word_contract)]
 #[kani::stub(succinctly::bits::scan::scan_select, crate::stubs::scan_select_model)]
@@ -449,6 +457,7 @@ fn c17_witness_must_fail() {
 macro_rules! ib_select {
     ($name:ident, $n:expr, $tl:expr, $maxpos:expr) => {
         #[kani::proof]
+        #[kani::stub(alloc::vec::Vec::push, crate::stubs::push_no_grow)]
         #[kani::unwind(8)]
         #[kani::stub(succinctly::util::broadword::select_in_word, crate::stubs::select_in_word_contract)]
         fn $name() {
